@@ -169,6 +169,15 @@ def has_raises(t):
     return any(hv(a) for a in list(t[3]) + list(t[4].values()))
 
 
+def undefined_to_false(t):
+    """every leaf with an argument whose resolution raises becomes a leaf of the same class that holds for no item"""
+    if t[0] == "bin":
+        return ("bin", t[1], undefined_to_false(t[2]), undefined_to_false(t[3]))
+    if t[0] == "leaf" and has_raises(t):
+        return ("leaf", t[1], "in_", [[]], {})
+    return t
+
+
 def realise(t):
     if t[0] == "leaf":
         def rv(v):
@@ -243,11 +252,13 @@ def make_case(rule_parts, t, doc):
     st = subst(t, doc)
     if has_raises(st):
         # resolution raises (single() with several matches, a datum modifier undefined on the node): inside the
-        # callable's try – the item fails, validation does not raise
+        # callable's try – validation does not raise, and the comparison is undefined for every item: that leaf
+        # holds for none of them (whatever the callable), the rest of the condition is judged as usual
         if impl[0] != "ok":
             c.fail("resolution_error_escapes", f"an unresolvable path argument made Rule.test raise {impl[1]}")
+            return c
         c.features.add(("resolution-raises",))
-        return c
+        st = undefined_to_false(st)
     lit = enc.outcome(lambda: Rule(DP.DataPath(*[terms.build_part(p) for p in rule_parts]), terms.build_tree(st)).test(doc))
     if impl[0] != "ok":
         c.fail("raises", f"Rule.test raised {impl[1]}")
